@@ -10,7 +10,7 @@ provenance with the written file.
 """
 import sys
 
-from .. import core, pipeline
+from .. import core, designcheck, pipeline, tlc
 from . import common_univ
 
 KINDS = {'spurious', 'unowned', 'multi', 'wrongid', 'wrongprov', 'crash'}
@@ -60,6 +60,14 @@ def main():
     sub = [nd[t] for t in sorted(nd)][::max(1, len(nd) // 250)]
     pipeline.check_decks(chk, sub, lambda d, r: [[f for f in common_univ.FLAGS if r.random() < 0.4]], chk.seed)
     chk.cov['traces_validated_against_impl'] += chk.extra.get('pipeline_traces', 0)
+    if chk.tier == 'thorough':
+        # FILL development as a design: PipelineD2 model-checked, every behaviour replayed into the code
+        try:
+            st = designcheck.run_fill(chk, True, chk.seed, configs=designcheck.CONFIGS2[:1])
+            chk.extra['fill_design_replay'] = st
+            chk.cov['traces_validated_against_impl'] += st['replayed']
+        except tlc.TLCFailure as exc:
+            chk.machinery(str(exc))
     chk.extra['rule'] = ('distinct = distinct (abstract deck, option set); non-trivial = at least one FILL with a '
                          'non-identity transformation and at least one probe point owned through a filler cell')
     chk.extra['exhaustive'] = False
